@@ -16,15 +16,29 @@ request (2-D):
             | cropprop n (x y)^n prop minimum cb | zoom s | rotate c s retain mode round
             | about a b tx c d ty retain mode round | mirror axis | warp h w a b tx c d ty mode
             | pyr level downscale | warpmask th tw <content> a b tx c d ty mode
+            | rescalediag diagonal dg round | rescalepc ns nt round | rescalerange dr rg round
+            | cropmask boundary cb          (the point set is computed from the mask content of the request)
+            | gpyr level downscale nW w0 … w_r   (half weights of the symmetric blur kernel)
+            | warpc <provider> h w a b tx c d ty mode   (landmarks moved by the closed form of that supplier)
+            | constrainlm
+            | chain n <stepop>^n            (stepop: rescale | resize | crop | croppts | cropprop | zoom | rotate | about
+                                             | mirror | warp, each applied to the result of the previous one)
+  provider := homogeneous | alignment | rotation | nonUniformScale | uniformScale | translation
 reply:  ok h' w' T(6) pre(2) landmarks(2n) then per pixel query: nch values [mask value] sx sy
         (sx sy = the point of the source the pixel was sampled at)   |   err value|boundary|degenerate
 request (sampling):  s2 <h> <w> <nch> <content>^nch <o0|o1> <mode> PTS k (x y)^k   → ok (nch values per point)
+request (contract quantities, exact):  k2 diag h w → h² + w²  |  k2 ss n (x y)^n → centredSS  |  k2 range n (x y)^n → rx² + ry²
+request (registration under a non-affine transform):
+  w2 <h> <w> <nch> <content>^nch <mode> th tw x y CELL k (i j Tx Ty)^k
+      → ok (nch values: the bilinear warp of the content, read back bilinearly at (x, y); the transform is the table) X Y
+        (X Y = the transform interpolated bilinearly at (x, y): `interpT`)
 request (3-D):  c3 <cls> n0 n1 n2 nch <content3>^nch [<mask>] <o0|o1> <op3> LM n (x y z)^n PIX k (i j k)^k
   content3 := aff a b c d | hash a b c e m den | half a b c d | const v
   op3      := rescale s0 s1 s2 round | resize m0 m1 m2 | crop (6) cb | zoom s | mirror axis | warp n0 n1 n2 T(12) mode
 -/
 import MenpoModel.Core.Codec
 import MenpoModel.Core.C01Warp
+import MenpoModel.Core.C01Ext
 
 namespace MenpoModel.Drive.C01
 open MenpoModel.Codec MenpoModel.C01
@@ -131,6 +145,48 @@ inductive Job2
   | plan (p : Except Err Plan2)
   | pyr (level : Nat) (ds : Rat)
   | wmask (tmpl : Img2) (T : Aff2) (m : Mode)
+  | cropmask (boundary : Rat) (cb : Bool)
+  | gpyr (level : Nat) (ds : Rat) (wts : List Rat)
+  | warpc (pv : PinvProvider) (p : Except Err Plan2)
+  | constrain
+  | chain (ops : List OpF)
+
+def pProvider : P PinvProvider := do
+  let t ← tok
+  match t with
+  | "homogeneous" => pure .homogeneous
+  | "alignment" => pure .alignment
+  | "rotation" => pure .rotation
+  | "nonUniformScale" => pure .nonUniformScale
+  | "uniformScale" => pure .uniformScale
+  | "translation" => pure .translation
+  | _ => failure
+
+/-- one step of a chain: the plan is built from the shape of the image the step is applied to -/
+def pStep : P OpF := do
+  let t ← tok
+  match t with
+  | "rescale" => do let sx ← pRat; let sy ← pRat; let r ← pRound; pure fun h w => rescalePlan2 h w sx sy r
+  | "resize" => do let nh ← pRat; let nw ← pRat; pure fun h w => resizePlan2 h w nh nw
+  | "crop" => do let mn ← pV2; let mx ← pV2; let cb ← pBool; pure fun h w => cropPlan2 h w mn mx cb
+  | "croppts" => do
+    let pts ← pList pV2; let b ← pRat; let cb ← pBool
+    pure fun h w => cropToPointsPlan2 h w pts b cb
+  | "cropprop" => do
+    let pts ← pList pV2; let pr ← pRat; let mi ← pBool; let cb ← pBool
+    pure fun h w => cropToPointsProportionPlan2 h w pts pr mi cb
+  | "zoom" => do let s ← pRat; pure fun h w => zoomPlan2 h w s
+  | "rotate" => do
+    let c ← pRat; let s ← pRat; let rt ← pBool; let m ← pMode; let r ← pRound
+    pure fun h w => rotatePlan2 h w c s rt m r
+  | "about" => do
+    let A ← pAff2; let rt ← pBool; let m ← pMode; let r ← pRound
+    pure fun h w => aboutPlan2 h w A rt m r
+  | "mirror" => do let ax ← pNat; pure fun h w => mirrorPlan2 h w ax
+  | "warp" => do
+    let th ← pNat; let tw ← pNat; let T ← pAff2; let m ← pMode
+    pure fun _ _ => warpPlan2 th tw T m
+  | _ => failure
 
 def pOp2 (h w : Nat) : P Job2 := do
   let t ← tok
@@ -156,6 +212,18 @@ def pOp2 (h w : Nat) : P Job2 := do
     let th ← pNat; let tw ← pNat; let T ← pAff2; let m ← pMode
     pure (.plan (warpPlan2 th tw T m))
   | "pyr" => do let k ← pNat; let ds ← pRat; pure (.pyr k ds)
+  | "rescalediag" => do let d ← pRat; let dg ← pRat; let r ← pRound; pure (.plan (rescaleToDiagonalPlan2 h w d dg r))
+  | "rescalepc" => do let ns ← pRat; let nt ← pRat; let r ← pRound; pure (.plan (rescaleToPointcloudPlan2 h w ns nt r))
+  | "rescalerange" => do
+    let dr ← pRat; let rg ← pRat; let r ← pRound
+    pure (.plan (rescaleLandmarksToDiagonalRangePlan2 h w dr rg r))
+  | "cropmask" => do let b ← pRat; let cb ← pBool; pure (.cropmask b cb)
+  | "gpyr" => do let k ← pNat; let ds ← pRat; let wts ← pList pRat; pure (.gpyr k ds wts)
+  | "warpc" => do
+    let pv ← pProvider; let th ← pNat; let tw ← pNat; let T ← pAff2; let m ← pMode
+    pure (.warpc pv (warpPlan2 th tw T m))
+  | "constrainlm" => pure .constrain
+  | "chain" => do let ops ← pList pStep; pure (.chain ops)
   | "warpmask" => do
     let th ← pNat; let tw ← pNat; let c ← pContent2 th tw; let T ← pAff2; let m ← pMode
     pure (.wmask ⟨th, tw, c⟩ T m)
@@ -190,8 +258,8 @@ def pReq2 : P Req2 := do
 def fV2s (l : List V2) : String := fmtRats (l.flatMap fun p => [p.x, p.y])
 
 /-- answer of a single plan -/
-def answerPlan2 (r : Req2) (p : Plan2) : String :=
-  let lms := r.lms.map p.landmark
+def answerPlan2 (r : Req2) (p : Plan2) (mover : Option (V2 → V2) := none) : String :=
+  let lms := r.lms.map (mover.getD p.landmark)
   let pixs := r.pix.flatMap fun (i, j) =>
     let vals := r.chans.map fun c =>
       if r.cls = .bool then (p.runMask ⟨r.h, r.w, c⟩).px i j else (p.run r.o ⟨r.h, r.w, c⟩).px i j
@@ -204,6 +272,69 @@ def answer2 (r : Req2) : String :=
   match r.job with
   | .plan (.error e) => fErr e
   | .plan (.ok p) => answerPlan2 r p
+  | .cropmask b cb =>
+    (match cropToTrueMaskPlan2 ⟨r.h, r.w, r.mask⟩ b cb with
+     | .error e => fErr e
+     | .ok p => answerPlan2 r p)
+  | .warpc _ (.error e) => fErr e
+  | .warpc pv (.ok p) => answerPlan2 r p (some (pinvBy pv p.T).apply)
+  | .constrain =>
+    let lms := r.lms.map (constrainLandmark r.h r.w)
+    s!"ok {r.h} {r.w} {fA2 Aff2.one} {fmtRats [(r.h : Rat), (r.w : Rat)]} {fV2s lms} "
+  | .chain ops =>
+    (match r.chans with
+     | [] => "bad-op"
+     | c0 :: _ =>
+       let start (c : Int → Int → Rat) : ChainState :=
+         ⟨⟨r.h, r.w, c⟩, ⟨r.h, r.w, if r.cls = .bool then c else r.mask⟩, r.lms, Aff2.one⟩
+       match chainRun r.o ops (start c0) with
+       | .error e => fErr e
+       | .ok s0 =>
+         let lastP := (chainPlans r.o ops (start c0)).getLast?
+         let lastT : Aff2 := match lastP with
+           | some p => p.T
+           | none => Aff2.one
+         let pre : V2 := match lastP with
+           | some p => p.pre
+           | none => ⟨(s0.im.h : Rat), (s0.im.w : Rat)⟩
+         let pixs := r.pix.flatMap fun (i, j) =>
+           let vals := r.chans.map fun c =>
+             match chainRun r.o ops (start c) with
+             | .ok s => if r.cls = .bool then s.msk.px i j else s.im.px i j
+             | .error _ => 0
+           let mk := if r.cls = .masked then [s0.msk.px i j] else []
+           let sp := lastT.apply (gridPt2 i j)
+           vals ++ mk ++ [sp.x, sp.y]
+         -- the transform answered is the composition (final → first image); `pre` is that of the last step
+         s!"ok {s0.im.h} {s0.im.w} {fA2 s0.back} {fmtRats [pre.x, pre.y]} {fV2s s0.lms} {fmtRats pixs}")
+  | .gpyr k ds wts =>
+    (match r.chans with
+     | [] => "bad-op"
+     | c0 :: _ =>
+       let start (c : Int → Int → Rat) : Img2 × Img2 × List V2 := (⟨r.h, r.w, c⟩, ⟨r.h, r.w, r.mask⟩, r.lms)
+       match gaussPyramid2 wts ds r.o k (start c0) with
+       | .error e => fErr e
+       | .ok (im0, _, lms) =>
+         let lastT : Aff2 := match k with
+           | 0 => Aff2.one
+           | k' + 1 => match gaussPyramid2 wts ds r.o k' (start c0) with
+             | .ok (imp, _, _) => match pyramidStep2 imp.h imp.w ds with
+               | .ok p => p.T
+               | .error _ => Aff2.one
+             | .error _ => Aff2.one
+         let pixs := r.pix.flatMap fun (i, j) =>
+           let vals := r.chans.map fun c =>
+             match gaussPyramid2 wts ds r.o k (start c) with
+             | .ok (im, _, _) => im.px i j
+             | .error _ => 0
+           let mk := if r.cls = .masked then
+               (match gaussPyramid2 wts ds r.o k (start c0) with
+                | .ok (_, mk, _) => [mk.px i j]
+                | .error _ => [0])
+             else []
+           let sp := lastT.apply (gridPt2 i j)
+           vals ++ mk ++ [sp.x, sp.y]
+         s!"ok {im0.h} {im0.w} {fA2 lastT} {fmtRats [(im0.h : Rat), (im0.w : Rat)]} {fV2s lms} {fmtRats pixs}")
   | .wmask tmpl T m =>
     if T.det = 0 then fErr .degenerate else
     let lms := r.lms.map T.inv.apply
@@ -327,8 +458,57 @@ def pReqS : P ReqS := do
 def answerS (r : ReqS) : String :=
   "ok " ++ fmtRats (r.pts.flatMap fun q => r.chans.map fun c => (Img2.sample r.o r.m ⟨r.h, r.w, c⟩ q))
 
+/-! ### exact contract quantities, and registration under a tabulated (non-affine) transform -/
+
+def answerK (toks : List String) : String :=
+  match toks with
+  | "diag" :: rest => (match runP (do let h ← pNat; let w ← pNat; pure (h, w)) rest with
+    | some (h, w) => "ok " ++ fmtRat ((h : Rat) * h + (w : Rat) * w)
+    | none => "bad-op")
+  | "ss" :: rest => (match runP (pList pV2) rest with
+    | some pts => "ok " ++ fmtRat (centredSS pts)
+    | none => "bad-op")
+  | "range" :: rest => (match runP (pList pV2) rest with
+    | some pts => let rg := rangeOf pts; "ok " ++ fmtRat (rg.x * rg.x + rg.y * rg.y)
+    | none => "bad-op")
+  | _ => "bad-op"
+
+structure ReqW where
+  h : Nat
+  w : Nat
+  chans : List (Int → Int → Rat)
+  m : Mode
+  th : Nat
+  tw : Nat
+  l : V2
+  cell : List (Int × Int × V2)
+
+def pReqW : P ReqW := do
+  let h ← pNat; let w ← pNat; let nch ← pNat
+  let chans ← pMany (pContent2 h w) nch
+  let m ← pMode
+  let th ← pNat; let tw ← pNat
+  let l ← pV2
+  let t ← tok
+  if t ≠ "CELL" then failure
+  let cell ← pList (do let i ← pInt; let j ← pInt; let v ← pV2; pure (i, j, v))
+  pure ⟨h, w, chans, m, th, tw, l, cell⟩
+
+def answerW (r : ReqW) : String :=
+  let T : V2 → V2 := fun p =>
+    match r.cell.find? (fun (i, j, _) => (i : Rat) = p.x ∧ (j : Rat) = p.y) with
+    | some (_, _, v) => v
+    | none => ⟨0, 0⟩
+  let vals := r.chans.map fun c => (warpF2 .linear r.m ⟨r.h, r.w, c⟩ r.th r.tw T).sample .linear .nearest r.l
+  let it := interpT r.th r.tw T r.l
+  "ok " ++ fmtRats (vals ++ [it.x, it.y])
+
 def step (toks : List String) : String :=
   match toks with
+  | "k2" :: rest => answerK rest
+  | "w2" :: rest => match runP pReqW rest with
+    | some r => answerW r
+    | none => "bad-op"
   | "s2" :: rest => match runP pReqS rest with
     | some r => answerS r
     | none => "bad-op"
